@@ -11,7 +11,10 @@ MC   : Generate.tla -- walker / dispatcher / semaphore-bounded workers (HandleEv
        internal/skipdir.ShouldSkip is coded); TLC's deadlock check is ON. Negative configs that TLC must reject:
        UpsertHash without the mutex (NoDataRace), errs closed before the workers finish (NoPanic), main not reading
        errs (Deadlock), a failing worker keeps its semaphore slot (Deadlock), a nondeterministic generator
-       (SecondRunChangesNothing), underscore / dot directories not skipped (NothingElseTouched), vendor / node_modules compared
+       (SecondRunChangesNothing), x.templ -> x_templ.go cut at the first ".templ" of the path (TargetNextToSource), the three
+       deviations of the pinned code -- events for directories named *.templ (ExitStatusIffSomeFileFailed), the orphan test
+       accepting a directory (OrphansGoneUnlessKept), the root's own name passed to the skip rule
+       (SiblingEqualsSoloGeneration) --, underscore / dot directories not skipped (NothingElseTouched), vendor / node_modules compared
        with HasSuffix / HasPrefix / case-insensitively, dot / underscore looked for anywhere in the name
        (SiblingEqualsSoloGeneration).
 GEN  : one record per terminated behaviour (tree, flags, predicted tree + exit status after run 1 and run 2) is
@@ -57,7 +60,12 @@ def main():
     negs = [("mutex", "Generate_neg_mutex.cfg", {}, "NoDataRace"), ("errs", "Generate_neg_errs.cfg", {}, "NoPanic"),
             ("main", "Generate_neg_main.cfg", {}, "Deadlock"),
             ("slot-not-released-on-error", "Generate_neg_slot.cfg", {}, "Deadlock"),
-            ("nondeterministic-generator", "Generate_neg_nondet.cfg", {}, "SecondRunChangesNothing")]
+            ("nondeterministic-generator", "Generate_neg_nondet.cfg", {}, "SecondRunChangesNothing"),
+            ("target-cut-at-first-.templ", "Generate_neg_target.cfg", {}, "TargetNextToSource"),
+            ("target-cut-at-first-.templ (on the tree)", "Generate_neg_target2.cfg", {}, "SiblingEqualsSoloGeneration"),
+            ("walk-emits-directories (pinned code)", "Generate_neg_walkdirs.cfg", {}, "ExitStatusIffSomeFileFailed"),
+            ("orphan-test-accepts-directory (pinned code)", "Generate_neg_orphanstat.cfg", {}, "OrphansGoneUnlessKept"),
+            ("root-name-skipped (pinned code)", "Generate_neg_root.cfg", {}, "SiblingEqualsSoloGeneration")]
     for rule, expect in (("nounderscore", "NothingElseTouched"), ("nodot", "NothingElseTouched"),
                          ("suffix", "SiblingEqualsSoloGeneration"), ("prefix", "SiblingEqualsSoloGeneration"),
                          ("foldcase", "SiblingEqualsSoloGeneration"), ("contains", "SiblingEqualsSoloGeneration")):
@@ -69,6 +77,14 @@ def main():
         fmc = [ex.submit(vlib.tlc, "MCGenerate", "mc.cfg", files={"mc.cfg": cfg_text("Generate_mc.cfg", Trees=trees, MaxFiles=maxfiles, Ws=ws, TwoRuns=two)},
                          workers=12 if thorough else 6, timeout=2400, xmx="10g") for trees, maxfiles, ws, two in mcs]
         fsk = ex.submit(vlib.tlc, "MCGenerate", "Generate_skip.cfg", workers=8 if thorough else 4, timeout=1200, xmx="8g")
+        fpath = ex.submit(vlib.tlc, "MCGenerate", "Generate_path.cfg", workers=4, timeout=1200, xmx="8g")
+        # the pinned code's deviations, each alone and all together (attribution of failing cases only)
+        devs = [{"WalkRule": '"coded"', "OrphanStat": '"fileonly"', "RootRule": '"exempt"'},
+                {"WalkRule": '"filesonly"', "OrphanStat": '"coded"', "RootRule": '"exempt"'},
+                {"WalkRule": '"filesonly"', "OrphanStat": '"fileonly"', "RootRule": '"coded"'},
+                {"WalkRule": '"coded"', "OrphanStat": '"coded"', "RootRule": '"exempt"'},
+                {"WalkRule": '"coded"', "OrphanStat": '"coded"', "RootRule": '"coded"'}]
+        fcoded = [ex.submit(vlib.tlc, "MCGenerate", "c.cfg", files={"c.cfg": cfg_text("Generate_gen_coded.cfg", **d)}, workers=1, timeout=1200, xmx="4g") for d in devs]
         fneg = [ex.submit(vlib.tlc, "MCGenerate", "n.cfg", files={"n.cfg": cfg_text(name, **repl)}, workers=1, timeout=600)
                 for _, name, repl, _ in negs]
         fgen = ex.submit(vlib.tlc, "MCGenerate", "gen.cfg", files={"gen.cfg": cfg_text("Generate_gen.cfg", MaxFiles=gen_files)},
@@ -83,6 +99,13 @@ def main():
         if not sk.ok:
             raise vlib.InfraError("Generate model violates %s on the skip universe" % sk.violated)
         ck.add_tlc(sk, "Generate_skip (31 basic + 36 near-miss directory paths, each alone)")
+        pm = fpath.result()
+        if not pm.ok:
+            raise vlib.InfraError("Generate model violates %s on the path-shape universe" % pm.violated)
+        ck.add_tlc(pm, "Generate_path (.templ inside directory names / twice in the base name, directories named *.templ, roots with a skip name; W in {1,2})")
+        coded = [f.result() for f in fcoded]
+        if not all(c.ok for c in coded):
+            raise vlib.InfraError("emission with the pinned code's deviations failed")
         for (nm, name, repl, expect), f in zip(negs, fneg):
             neg = f.result()
             if neg.violated != expect:
@@ -106,6 +129,30 @@ def main():
         seen.add(k)
         uniq.append((k, c))
     uniq = [c for _, c in sorted(uniq, key=lambda x: x[0])]
+    # what the specification predicts for the pinned code's deviations (directory events, orphan test on directories,
+    # root name passed to the skip rule): attached to the cases it differs on, for attribution only
+    deviating = {}
+    by_key = {json.dumps([c["files"], c["flags"]], sort_keys=True): c for c in uniq}
+    for c in uniq:
+        c.pop("why", None)
+    for run in coded:
+        for cc in run.tagged("CASE"):
+            c = by_key.get(json.dumps([cc["files"], cc["flags"]], sort_keys=True))
+            if c is None or not cc["why"] or not any(cc[k] != c[k] for k in ("final1", "status1", "final2", "status2")):
+                continue
+            a = {k: cc[k] for k in ("why", "final1", "status1", "final2", "status2")}
+            if a not in c.setdefault("alts", []):
+                c["alts"].append(a)
+                for w in cc["why"]:
+                    deviating[w] = deviating.get(w, 0) + 1
+    for why in ("WalkFiles.DirectoryMatchesPattern", "OrphanTest.DirectoryCountsAsTemplate", "WalkFiles.RootSkipped"):
+        if not deviating.get(why):
+            raise vlib.InfraError("no emitted case exercises %s" % why)
+    ck.set("cases_exercising_a_deviation_of_the_pinned_code", deviating)
+    shapes = sum(1 for c in uniq if any(".templ" in d for f in c["files"] for d in f["dir"]) or any(f["name"].count(".templ") > 1 for f in c["files"]))
+    if shapes < 50:
+        raise vlib.InfraError("only %d emitted cases have '.templ' elsewhere than as the final extension" % shapes)
+    ck.set("cases_with_dot_templ_inside_the_path", shapes)
     vlib.log("emitted %d cases" % len(uniq))
     if len(uniq) < 200:
         raise vlib.InfraError("only %d cases emitted" % len(uniq))
@@ -145,7 +192,8 @@ def main():
             raise vlib.InfraError("harness aborted without reporting a violation")
         ck.set("aborted_after_runs", s["runs"])
         ck.finish()
-    want_hooked = 0 if not hooks else (min(max_hooked, len(uniq) * reps) if max_hooked else len(uniq) * reps)
+    ordinary = sum(1 for c in uniq if not c.get("alts"))
+    want_hooked = 0 if not hooks else (min(max_hooked, ordinary * reps) if max_hooked else ordinary * reps)
     if s["cases"] != len(uniq) or s["runs"] != s["jobs"] or s["jobs"] != len(uniq) * 3 + want_hooked:
         raise vlib.InfraError("harness executed %s of %d x 3 + %d runs" % (s["runs"], len(uniq), want_hooked))
     if s["hooks"] != hooks:
@@ -219,7 +267,6 @@ def main():
     ck.set("cases_with_near_miss_directory_names", near)
     ck.set("rule", "every terminated behaviour of Generate.tla for the emission universe (one per tree x flags), each executed with W in {1,2,8} (8 at a time, race detector) and, with the hook, %d recorded+perturbed repetitions with W in {2,8}; every run twice" % reps)
     ck.assume("-lazy trusts modification times: a newer _templ.go is left alone even if its content differs (modelled as specified by the flag)")
-    ck.assume("the root directory itself has a plain name (ShouldSkip is applied to the root's absolute path as well)")
     ck.assume("real goroutine schedules are sampled (W, repetitions, perturbation, race detector); all schedules are explored in the model only")
     ck.assume("-include-timestamp is excluded (output not a function of the tree by design)")
     ck.finish()
